@@ -3,8 +3,12 @@
 -/
 import Cvss.Model.Json
 import Cvss.Spec.SchemaTerms
+import Cvss.Props.C08
+import Cvss.Props.C11
+import Cvss.Lemmas.Construct
+import Cvss.Lemmas.SchemaValid
 namespace Cvss.Props.C10
-open Cvss Cvss.Model Cvss.Spec
+open Cvss Cvss.Model Cvss.Spec Cvss.Lemmas.SchemaValid
 
 /-- every metric field the serialiser can emit — the JSON key of a metric with the upper-snake name
     of any of its values — satisfies the schema's constraint for that key -/
@@ -51,5 +55,344 @@ theorem json_v4_invalid_witness :
      | .ok o => (asJson4 o false false).map (Schema.failures Schema.schema40)
      | .error _ => none) = some [c!"version", c!"baseScore/baseSeverity:anyOf"] := by
   decide +kernel
+
+/-! ### helpers: reading the Boolean facts above at one key -/
+
+section helpers
+open Cvss.Lemmas.V2 (lookup_map_keys lookup_of_mem_keys)
+
+theorem metric_ok {sch : Schema.Schema} {jsonKeys : List (Str × Str)} {names : List (Str × List (Str × Str))}
+    {usf : Str → Str} (h : metricFieldsOk sch jsonKeys names usf = true)
+    {m : Str} {row : List (Str × Str)} {t d : Str}
+    (hrow : lookup m names = some row) (hd : lookup t row = some d) :
+    ∃ k, lookup m jsonKeys = some k ∧ propOk sch k (.str (usf d)) = true := by
+  have h1 := List.all_eq_true.1 h (m, row) (mem_of_lookup_eq_some _ _ _ hrow)
+  simp only at h1
+  cases hk : lookup m jsonKeys with
+  | none => simp [hk] at h1
+  | some k =>
+    rw [hk] at h1
+    simp only at h1
+    refine ⟨k, rfl, ?_⟩
+    unfold propOk
+    cases hc : lookup k sch.props with
+    | none => simp [hc] at h1
+    | some c =>
+      rw [hc] at h1
+      simp only at h1
+      exact List.all_eq_true.1 h1 (t, d) (mem_of_lookup_eq_some _ _ _ hd)
+
+theorem score_ok {sch : Schema.Schema} {scoreKeys sevKeys ratings : List Str}
+    (h : scoresOk sch scoreKeys sevKeys ratings = true) {k : Str} (hk : k ∈ scoreKeys) {x : Rat}
+    (hx : ∃ n : Nat, n ≤ 100 ∧ x = (n : Rat) / 10) : propOk sch k (.num x) = true := by
+  unfold scoresOk at h
+  rw [Bool.and_eq_true] at h
+  have h1 := List.all_eq_true.1 h.1 k hk
+  obtain ⟨n, hn, rfl⟩ := hx
+  unfold propOk
+  cases hc : lookup k sch.props with
+  | none => rfl
+  | some c =>
+    rw [hc] at h1
+    simp only at h1
+    exact List.all_eq_true.1 h1 n (List.mem_range.2 (by omega))
+
+theorem sev_ok {sch : Schema.Schema} {scoreKeys sevKeys ratings : List Str}
+    (h : scoresOk sch scoreKeys sevKeys ratings = true) {k : Str} (hk : k ∈ sevKeys) {r : Str}
+    (hr : r ∈ ratings) : propOk sch k (.str (us3 r)) = true := by
+  unfold scoresOk at h
+  rw [Bool.and_eq_true] at h
+  have h1 := List.all_eq_true.1 h.2 k hk
+  unfold propOk
+  cases hc : lookup k sch.props with
+  | none => rfl
+  | some c =>
+    rw [hc] at h1
+    simp only at h1
+    exact List.all_eq_true.1 h1 r hr
+
+/-- a legal token of a metric has a description in the metric's row of value names -/
+theorem descr_of_legal {names : List (Str × List (Str × Str))} {legal : List (Str × List Str)}
+    (hnl : names.map (fun (k, row) => (k, keys row)) = legal) {k t : Str}
+    (ht : t ∈ (lookup k legal).getD []) :
+    ∃ row d, lookup k names = some row ∧ lookup t row = some d := by
+  rw [← hnl, lookup_map_keys] at ht
+  cases hrow : lookup k names with
+  | none => simp [hrow] at ht
+  | some row =>
+    rw [hrow] at ht
+    simp only [Option.map_some, Option.getD_some] at ht
+    obtain ⟨d, hd⟩ := lookup_of_mem_keys ht
+    exact ⟨row, d, rfl, hd⟩
+
+/-! #### v2 -/
+
+theorem names_legal2 : Gen.V2.valueNames.map (fun (k, row) => (k, keys row)) = V2.tables.legal := by
+  decide +kernel
+
+/-- every optional v2 metric has the value ND -/
+theorem optional_nd2 : ∀ k ∈ keys Gen.V2.abbrs,
+    k ∈ V2.tables.mandatory ∨ Model.V2.ND ∈ (lookup k V2.tables.legal).getD [] := by
+  decide +kernel
+
+theorem legal_tok2 {m : MMap} (hv : C03.ValidMap m) {k : Str} (hk : k ∈ keys Gen.V2.abbrs) :
+    (lookup k m).getD Model.V2.ND ∈ (lookup k V2.tables.legal).getD [] := by
+  cases hl : lookup k m with
+  | some v =>
+    obtain ⟨vs, h1, h2⟩ := hv.1 k v hl
+    simpa [h1] using h2
+  | none =>
+    rcases optional_nd2 k hk with h | h
+    · have := hv.2 k h
+      rw [hl] at this
+      exact absurd this (by simp)
+    · simpa using h
+
+/-- the guide's table has the same value tokens as the library's -/
+theorem spec_rows2 : ∀ p ∈ Spec.V2.weights,
+    p.1 ∈ keys Gen.V2.abbrs ∧ ∀ t ∈ (lookup p.1 V2.tables.legal).getD [], (lookup t p.2).isSome := by
+  decide +kernel
+
+theorem legalAssignment2 {m : MMap} (hv : C03.ValidMap m) : C03.LegalAssignment (assignment Model.V2.ND m) := by
+  intro p hp
+  obtain ⟨h1, h2⟩ := spec_rows2 p hp
+  exact h2 _ (legal_tok2 hv h1)
+
+theorem v2_field_ok {m : MMap} (hv : C03.ValidMap m) {k : Str} (hk : k ∈ keys Gen.V2.abbrs) :
+    ∃ key d, lookup k Gen.V2.jsonKeys = some key ∧ V2.getDescription m k = some d ∧
+      propOk Schema.schema20 key (.str (us2 d)) = true := by
+  obtain ⟨row, d, hrow, hd⟩ := descr_of_legal names_legal2 (legal_tok2 hv hk)
+  obtain ⟨key, h1, h2⟩ := metric_ok v2_metric_fields_ok hrow hd
+  refine ⟨key, d, h1, ?_, h2⟩
+  unfold V2.getDescription
+  rw [hrow]
+  exact hd
+
+theorem groups2_sub : ∀ k, (k ∈ Gen.V2.mandatory ∨ k ∈ Gen.V2.temporal ∨ k ∈ Gen.V2.environmental) →
+    k ∈ keys Gen.V2.abbrs := by
+  intro k hk
+  have : ∀ k ∈ Gen.V2.mandatory ++ Gen.V2.temporal ++ Gen.V2.environmental, k ∈ keys Gen.V2.abbrs := by
+    decide +kernel
+  apply this
+  simp only [List.mem_append]
+  tauto
+
+theorem props_nodup : (keys Schema.schema20.props).Nodup ∧ (keys Schema.schema30.props).Nodup ∧
+    (keys Schema.schema31.props).Nodup := by decide +kernel
+
+theorem version_ok : propOk Schema.schema20 c!"version" (.str c!"2.0") = true ∧
+    propOk Schema.schema30 c!"version" (.str (c!"3." ++ natToStr 0)) = true ∧
+    propOk Schema.schema31 c!"version" (.str (c!"3." ++ natToStr 1)) = true := by decide +kernel
+
+theorem vector_ok20 (s : Str) (h : Grammar.Accepts Grammar.g2 s) :
+    propOk Schema.schema20 c!"vectorString" (.str s) = true := by
+  have e : lookup c!"vectorString" Schema.schema20.props = some (.pattern Regex.pattern20) := by rfl
+  unfold propOk
+  rw [e]
+  exact (C08.fullMatch_iff _ _).2 (C08.v2_accepted_matches s h)
+
+theorem vector_ok30 (s : Str) (h : Grammar.Accepts Grammar.g3 s) (hp : c!"CVSS:3.0/" <+: s) :
+    propOk Schema.schema30 c!"vectorString" (.str s) = true := by
+  have e : lookup c!"vectorString" Schema.schema30.props = some (.pattern Regex.pattern30) := by rfl
+  unfold propOk
+  rw [e]
+  exact (C08.fullMatch_iff _ _).2 (C08.v30_accepted_matches s h hp)
+
+theorem vector_ok31 (s : Str) (h : Grammar.Accepts Grammar.g3 s) (hp : c!"CVSS:3.1/" <+: s) :
+    propOk Schema.schema31 c!"vectorString" (.str s) = true := by
+  have e : lookup c!"vectorString" Schema.schema31.props = some (.pattern Regex.pattern31) := by rfl
+  unfold propOk
+  rw [e]
+  exact (C08.fullMatch_iff _ _).2 (C08.v31_accepted_matches s h hp)
+
+theorem isScore_getD {t : Option Rat} (h : ∀ x, t = some x → C03.IsScore x) : C03.IsScore (t.getD 0) := by
+  cases t with
+  | none => exact ⟨0, by omega, by simp⟩
+  | some x => exact h x rfl
+
+/-! #### v3 -/
+
+theorem names_legal3 : Gen.V3.valueNames.map (fun (k, row) => (k, keys row)) = V3.tables.legal := by
+  decide +kernel
+
+theorem kinds3 : ∀ k ∈ keys Gen.V3.abbrs,
+    k ∈ V3.modifiedMetrics ∨ k ∈ V3.tables.mandatory ∨ C01.legalTok k Model.V3.X := by
+  decide +kernel
+
+/-- every value the filled-in dict `self.metrics` holds (or X for an absent metric) is a legal token -/
+theorem legal_tok3 {m full : MMap} (hv : C01.ValidMap m) (hf : C01.Filled m full) {k : Str}
+    (hk : k ∈ keys Gen.V3.abbrs) : C01.legalTok k ((lookup k full).getD Model.V3.X) := by
+  by_cases hmod : k ∈ V3.modifiedMetrics
+  · rw [C01.sv_mod hf hmod]
+    exact (C01.legal_eff hv hmod).1
+  · rw [C01.sv_base hf hmod]
+    rcases kinds3 k hk with h | h | h
+    · exact absurd h hmod
+    · exact C01.legal_mandatory hv h
+    · exact C01.legal_optional hv h
+
+theorem groups3_sub : ∀ k, (k ∈ Gen.V3.mandatory ∨ k ∈ Gen.V3.temporal ∨ k ∈ Gen.V3.environmental) →
+    k ∈ keys Gen.V3.abbrs := by
+  intro k hk
+  have : ∀ k ∈ Gen.V3.mandatory ++ Gen.V3.temporal ++ Gen.V3.environmental, k ∈ keys Gen.V3.abbrs := by
+    decide +kernel
+  apply this
+  simp only [List.mem_append]
+  tauto
+
+theorem sevOf_mem (x : Rat) : V3.sevOf x ∈ [c!"None", c!"Low", c!"Medium", c!"High", c!"Critical"] := by
+  unfold V3.sevOf
+  repeat' split
+  all_goals simp
+
+/-- the v3 output is valid for any schema that passes the finite checks of this file -/
+theorem v3_valid_aux (sch : Schema.Schema) (o : V3.Obj) (sort minimal : Bool)
+    (hmf : metricFieldsOk sch Gen.V3.jsonKeys Gen.V3.valueNames us3 = true)
+    (hsc : scoresOk sch [c!"baseScore", c!"temporalScore", c!"environmentalScore"]
+      [c!"baseSeverity", c!"temporalSeverity", c!"environmentalSeverity"]
+      [c!"None", c!"Low", c!"Medium", c!"High", c!"Critical"] = true)
+    (hver : propOk sch c!"version" (.str (c!"3." ++ natToStr o.minor)) = true)
+    (hvec : propOk sch c!"vectorString" (.str o.vector) = true)
+    (hreq : sch.required = [c!"version", c!"vectorString", c!"baseScore", c!"baseSeverity"])
+    (hn : (keys sch.props).Nodup) (hb : sch.bands = [])
+    (hdescr : ∀ k ∈ keys Gen.V3.abbrs, C01.legalTok k ((lookup k o.metrics).getD Model.V3.X))
+    (hs : C01.IsScore o.base ∧ C01.IsScore o.temporal ∧ C01.IsScore o.env) :
+    ∃ j, asJson3 o sort minimal = some j ∧ Schema.failures sch j = [] := by
+  rw [asJson3_eq]
+  apply runBlocks_valid
+  · show (keys (C11.d0_3 o) ++ (C11.blocks3 o _ _).flatMap (blockKeys Gen.V3.jsonKeys)).Nodup
+    rw [C11.K3_all]
+    exact C11.K3_nodup
+  · intro b hb k hk
+    have hmem : k ∈ keys Gen.V3.abbrs := by
+      apply groups3_sub
+      simp only [List.mem_cons, List.not_mem_nil, or_false] at hb
+      rcases hb with rfl | rfl | rfl
+      · exact Or.inl hk
+      · exact Or.inr (Or.inl hk)
+      · exact Or.inr (Or.inr hk)
+    obtain ⟨row, d, hrow, hd⟩ := descr_of_legal names_legal3 (hdescr k hmem)
+    obtain ⟨key, h1, h2⟩ := metric_ok hmf hrow hd
+    refine ⟨key, d, h1, ?_, h2⟩
+    unfold V3.getDescription
+    rw [hrow]
+    exact hd
+  · intro kv hkv
+    simp only [List.mem_cons, List.not_mem_nil, or_false] at hkv
+    rcases hkv with rfl | rfl
+    · exact hver
+    · exact hvec
+  · intro b hb kv hkv
+    simp only [List.mem_cons, List.not_mem_nil, or_false] at hb
+    rcases hb with rfl | rfl | rfl <;>
+      simp only [List.mem_cons, List.not_mem_nil, or_false] at hkv <;>
+      rcases hkv with rfl | rfl
+    · exact score_ok hsc (by simp) hs.1
+    · exact sev_ok hsc (by simp) (sevOf_mem _)
+    · exact score_ok hsc (by simp) hs.2.1
+    · exact sev_ok hsc (by simp) (sevOf_mem _)
+    · exact score_ok hsc (by simp) hs.2.2
+    · exact sev_ok hsc (by simp) (sevOf_mem _)
+  · intro k hk
+    rw [hreq] at hk
+    simp only [List.mem_cons, List.not_mem_nil, or_false] at hk
+    rcases hk with rfl | rfl | rfl | rfl
+    · exact Or.inl (by simp [keys])
+    · exact Or.inl (by simp [keys])
+    · exact Or.inr ⟨_, List.Mem.head _, rfl, by simp [keys]⟩
+    · exact Or.inr ⟨_, List.Mem.head _, rfl, by simp [keys]⟩
+  · exact hn
+  · exact hb
+
+end helpers
+
+/-! ### MAIN: the JSON of every accepted v2 / v3.0 / v3.1 vector validates, for all four option sets -/
+
+/-- `as_json` never fails (no KeyError) on a constructed v2 object, and its result has no failing
+    schema location: required keys present, every property satisfies its constraint (string enumerations
+    for the metric fields and ratings, the number range for scores, the vectorString pattern) -/
+theorem v2_json_valid (s : Str) (o : V2.Obj) (h : V2.construct s = .ok o) (sort minimal : Bool) :
+    ∃ j, asJson2 o sort minimal = some j ∧ Schema.failures Schema.schema20 j = [] := by
+  obtain ⟨m, hp, ho⟩ := (Lemmas.Construct.v2_construct_ok_iff s o).1 h
+  have hv := Lemmas.Construct.validMap2_of_parse hp
+  have hmet : o.metrics = m := by rw [ho]
+  have hvec : o.vector = s := by rw [ho]
+  obtain ⟨rb, rt, re⟩ := C03.v2_spec_range _ (legalAssignment2 hv)
+  have hbase : C03.IsScore o.base := by rw [ho]; exact rb
+  have htemp : C03.IsScore (o.temporal.getD 0) := by rw [ho]; exact isScore_getD rt
+  have henv : C03.IsScore (o.env.getD 0) := by rw [ho]; exact isScore_getD re
+  have hacc : Grammar.Accepts Grammar.g2 s := (C04.v2_parse_ok_iff s).1 ⟨m, hp⟩
+  rw [asJson2_eq]
+  apply runBlocks_valid
+  · show (keys (C11.d0_2 o) ++ (C11.blocks2 o _ _).flatMap (blockKeys Gen.V2.jsonKeys)).Nodup
+    rw [C11.K2_all]
+    exact C11.K2_nodup
+  · intro b hb k hk
+    rw [hmet]
+    apply v2_field_ok hv
+    apply groups2_sub
+    simp only [List.mem_cons, List.not_mem_nil, or_false] at hb
+    rcases hb with rfl | rfl | rfl
+    · exact Or.inl hk
+    · exact Or.inr (Or.inl hk)
+    · exact Or.inr (Or.inr hk)
+  · intro kv hkv
+    simp only [List.mem_cons, List.not_mem_nil, or_false] at hkv
+    rcases hkv with rfl | rfl | rfl
+    · exact version_ok.1
+    · rw [hvec]; exact vector_ok20 s hacc
+    · exact score_ok scores_ok.1 (by simp) hbase
+  · intro b hb kv hkv
+    simp only [List.mem_cons, List.not_mem_nil, or_false] at hb
+    rcases hb with rfl | rfl | rfl
+    · simp at hkv
+    · simp only [List.mem_cons, List.not_mem_nil, or_false] at hkv
+      subst hkv
+      rw [C11.truthy_getD]
+      exact score_ok scores_ok.1 (by simp) htemp
+    · simp only [List.mem_cons, List.not_mem_nil, or_false] at hkv
+      subst hkv
+      rw [C11.truthy_getD]
+      exact score_ok scores_ok.1 (by simp) henv
+  · intro k hk
+    exact Or.inl hk
+  · exact props_nodup.1
+  · rfl
+
+/-- v3: against the 3.0 schema for a CVSS:3.0 vector and the 3.1 schema for a CVSS:3.1 vector -/
+theorem v3_json_valid (s : Str) (o : V3.Obj) (h : V3.construct s = .ok o) (sort minimal : Bool) :
+    ∃ j, asJson3 o sort minimal = some j ∧
+      Schema.failures (if o.minor = 0 then Schema.schema30 else Schema.schema31) j = [] := by
+  obtain ⟨i, m, hp, hbuild⟩ := (Lemmas.Construct.v3_construct_ok_iff s o).1 h
+  have hv := Lemmas.Construct.validMap3_of_parse hp
+  obtain ⟨o', ho', hvec, hmin, -, hb, ht, he, hf⟩ := C01.v3_build_eq_spec s i m hv
+  rw [hbuild] at ho'
+  cases ho'
+  obtain ⟨rb, rt, re⟩ := C01.v3_spec_range i (assignment Model.V3.X m)
+  have hs : C01.IsScore o.base ∧ C01.IsScore o.temporal ∧ C01.IsScore o.env := by
+    rw [hb, ht, he]; exact ⟨rb, rt, re⟩
+  have hdescr : ∀ k ∈ keys Gen.V3.abbrs, C01.legalTok k ((lookup k o.metrics).getD Model.V3.X) :=
+    fun k hk => legal_tok3 hv hf hk
+  have hacc : Grammar.Accepts Grammar.g3 s := (C04.v3_parse_ok_iff s).1 ⟨_, hp⟩
+  obtain ⟨⟨p, hpi, hsp⟩, -⟩ := C04.v3_parse_ok_fields s i m hp
+  have hi : i = 0 ∨ i = 1 := by
+    have := (List.getElem?_eq_some_iff.1 hpi).1
+    simp only [V3.prefixes, List.length_cons, List.length_nil] at this
+    omega
+  rcases hi with rfl | rfl
+  · have hp0 : p = c!"CVSS:3.0/" := by simpa [V3.prefixes] using hpi.symm
+    rw [hmin, if_pos rfl]
+    apply v3_valid_aux _ o sort minimal v30_metric_fields_ok scores_ok.2.1 _ _ rfl props_nodup.2.1 rfl
+      hdescr hs
+    · rw [hmin]; exact version_ok.2.1
+    · rw [hvec]
+      exact vector_ok30 s hacc (by rw [hsp, hp0]; exact List.prefix_append _ _)
+  · have hp1 : p = c!"CVSS:3.1/" := by simpa [V3.prefixes] using hpi.symm
+    rw [hmin, if_neg (by omega)]
+    apply v3_valid_aux _ o sort minimal v31_metric_fields_ok scores_ok.2.2 _ _ rfl props_nodup.2.2 rfl
+      hdescr hs
+    · rw [hmin]; exact version_ok.2.2
+    · rw [hvec]
+      exact vector_ok31 s hacc (by rw [hsp, hp1]; exact List.prefix_append _ _)
 
 end Cvss.Props.C10
